@@ -43,6 +43,17 @@ def features(fm: AObj) -> list[AObj]:
 
 
 def describe(fm: AObj) -> dict[str, Any]:
+    """Names, tree, attributes and constraints of a model as plain data. A value that is not shaped like a feature model
+    at all (a list where the root should be, a feature where the children should be ...) is described as malformed - the
+    comparison then reports that, it does not crash."""
+    try:
+        return _describe(fm)
+    except (TypeError, AttributeError, KeyError) as exc:
+        return {"root": None, "features": {}, "relations": {}, "constraints": [],
+                "_malformed": f"{type(exc).__name__}: {exc}"}
+
+
+def _describe(fm: AObj) -> dict[str, Any]:
     d: dict[str, Any] = {"root": None, "features": {}, "relations": {}, "constraints": []}
     root = fm._f.get("root")
     d["root"] = root._f.get("name") if isinstance(root, AObj) else repr(root)
@@ -105,6 +116,8 @@ def diff(a: dict[str, Any], b: dict[str, Any], relation_order: bool = False,
          ctc_node_compare: Any = None) -> list[tuple[str, str]]:
     """Differences (category, text) between the model written (a) and the model read back (b)."""
     out: list[tuple[str, str]] = []
+    if b.get("_malformed") or a.get("_malformed"):
+        return [("root", f"the model read is not shaped like a feature model ({b.get('_malformed') or a.get('_malformed')})")]
     if a["root"] != b["root"]:
         out.append(("root", f"root {a['root']!r} comes back as {b['root']!r}"))
     fa, fb = a["features"], b["features"]
@@ -156,6 +169,13 @@ def diff(a: dict[str, Any], b: dict[str, Any], relation_order: bool = False,
 
 def wellformed(fm: AObj) -> list[tuple[str, str]]:
     """C02 shape facts of a model returned by a reader (abstract evaluation of its source)."""
+    try:
+        return _wellformed(fm)
+    except (TypeError, AttributeError, KeyError) as exc:
+        return [("root", f"the model is not shaped like a feature model ({type(exc).__name__}: {exc})")]
+
+
+def _wellformed(fm: AObj) -> list[tuple[str, str]]:
     out: list[tuple[str, str]] = []
     root = fm._f.get("root")
     if not isinstance(root, AObj):
